@@ -8,7 +8,7 @@ from ..engine import Ctx
 from ..model import dotted, unparse
 from . import common as C
 from .brokers import inmem_consume_rules, inmem_transfer_atomic, rabbit_rules, redis_txn_rules
-from .C02 import cancel_env, race
+from .C02 import cancel_env, catch, race
 from .C14 import maintenance
 from .ladder import check_prepare
 from .shared import _mentions, await_map, effectively_awaited
@@ -35,6 +35,7 @@ def run(ctx: Ctx) -> None:
     redis_txn_rules(ctx, ops=("ack", "nack", "reject", "requeue"), rule_t="R-C01-TRANSFER", rule_a="R-C01-ATOMIC")
     rabbit_rules(ctx)
     race(ctx, "R-C02-RACE")
+    catch(ctx, "R-C02-CATCH")  # a handler that swallows CancelledError makes the forced cancellation ineffective
     handoff(ctx)
     finish(ctx)
     shutdown(ctx)
@@ -87,7 +88,8 @@ def handoff(ctx: Ctx, rule="R-C03-HANDOFF") -> None:
         if key in seen:
             continue
         seen.add(key)
-        ctx.fail(rule, n.func, f"cancellation at `{n.label[:70]}` between take and hand-off",
+        label = C.utext(n.func, n.ast)[:70] if isinstance(n.ast, ast.Await) else n.label[:70]
+        ctx.fail(rule, n.func, f"cancellation at `{label}` between take and hand-off",
                  f"redis prefetcher: a message already marked in flight (processing zset) is lost from the consumer when the background task is cancelled at `{n.label[:70]}` "
                  f"in {n.func.short()} - finish() cancels that task and rejects only what reached the local queue, so the message stays marked in flight until its execution timeout "
                  "has elapsed and maintenance runs", node=n, instance=f"hand-off cancel point: {n.func.name}: {n.label[:50]}")
@@ -139,6 +141,10 @@ def shutdown(ctx: Ctx, rule="R-C03-SHUTDOWN") -> None:
     w = ctx.func(f"{C.WORKER}._run") if f"{C.WORKER}._run" in ctx.prog.functions else ctx.func(f"{C.WORKER}.run")
     g = ctx.cfg(w)
 
+    cons_names = {t.id for n in ast.walk(w.node) if isinstance(n, ast.Assign) and isinstance(n.value, ast.Await) for t in n.targets if isinstance(t, ast.Name)
+                  and any(isinstance(x, ast.Call) and isinstance(x.func, ast.Attribute) and x.func.attr == "run_one_queue" for e in C.feeds(w, n.value) for x in ast.walk(e))}
+    fin_vars = {t.id for t, it, body, node in C.iterations(w) if isinstance(t, ast.Name) and dotted(it) in cons_names}
+
     def sym(n):
         if n.kind == "call":
             d = n.callee or ""
@@ -146,7 +152,7 @@ def shutdown(ctx: Ctx, rule="R-C03-SHUTDOWN") -> None:
                 return "run_one_queue"
             if d.endswith("finish_gracefully"):
                 return "finish_gracefully"
-            if isinstance(n.ast.func, ast.Attribute) and n.ast.func.attr == "finish" and dotted(n.ast.func.value) == "c":
+            if isinstance(n.ast.func, ast.Attribute) and n.ast.func.attr == "finish" and dotted(n.ast.func.value) in fin_vars:
                 return "consumers.finish"
             if d.endswith("_unregister_signals"):
                 return "unregister_signals"
@@ -155,27 +161,34 @@ def shutdown(ctx: Ctx, rule="R-C03-SHUTDOWN") -> None:
         return None
 
     def env(text, node):
-        if dotted(node) == "consumers":
+        if dotted(node) in cons_names:
             return True
-        if isinstance(node, ast.UnaryOp):
-            return None
         if dotted(node) in ("self.actors", "self.topics_by_queue"):
             return True
         return None
 
-    trs = {t for t in flow.traces(g, sym, loop_bound=1, env={"*w": env}) if t[-1] == "$exit"}
-    want = ("register_signals", "run_one_queue", "finish_gracefully", "consumers.finish", "unregister_signals", "$exit")
-    ctx.check(trs == {want}, rule, w, "shutdown sequence of Worker.run", " -> ".join(want[:-1]),
-              f"Worker.run's normal paths are {sorted(trs)} instead of consumers -> finish_gracefully -> finish() of every consumer -> unregister signals", instance="shutdown order")
+    trs = {t for t in flow.traces(g, sym, loop_bound=2, env={"*w": env}) if t[-1] == "$exit"}
+    order = ["register_signals", "run_one_queue", "finish_gracefully", "consumers.finish", "unregister_signals"]
+
+    def well_ordered(t):
+        ev = [x for x in t if x != "$exit"]
+        idx = [order.index(x) for x in ev]
+        once = all(ev.count(x) == 1 for x in ("register_signals", "finish_gracefully", "unregister_signals")) and ev.count("consumers.finish") >= 1
+        return idx == sorted(idx) and once
+
+    bad = sorted(t for t in trs if not well_ordered(t))
+    ctx.check(bool(trs) and not bad and bool(cons_names), rule, w, "shutdown sequence of Worker.run", " -> ".join(order),
+              f"Worker.run's normal paths include {bad[:2]} instead of consumers -> finish_gracefully -> finish() of every consumer -> unregister signals", instance="shutdown order")
     fg = [c for c in ast.walk(w.node) if isinstance(c, ast.Call) and (dotted(c.func) or "").endswith("finish_gracefully")]
     ok = len(fg) == 1 and dotted(C.kw(fg[0], "timeout") or (fg[0].args[0] if fg[0].args else None)) == "self.graceful_shutdown_time"
     ctx.check(ok, rule, w, "finish_gracefully(timeout=graceful_shutdown_time)", "bounded by the graceful period", "finish_gracefully is not bounded by the worker's graceful_shutdown_time", instance="graceful timeout")
     wf = [c for c in ast.walk(w.node) if isinstance(c, ast.Call) and (dotted(c.func) or "").endswith("wait_for") and "finish()" in unparse(c)]
-    ok = len(wf) == 1 and dotted(C.kw(wf[0], "timeout")) == "self.graceful_consumer_finish_time" and "for c in consumers" in unparse(wf[0])
+    ok = len(wf) == 1 and dotted(C.kw(wf[0], "timeout")) == "self.graceful_consumer_finish_time" and any(
+        dotted(it) in cons_names and any(isinstance(x, ast.Call) and isinstance(x.func, ast.Attribute) and x.func.attr == "finish" for b in body for x in ast.walk(b))
+        for t, it, body, node in C.iterations(w) if any(x is node for x in ast.walk(wf[0])))
     ctx.check(ok, rule, w, "consumers' finish() awaited for every consumer under a timeout", "wait_for(gather(*(c.finish() for c in consumers)), timeout=...)",
               "Worker.run does not await finish() of every consumer under an explicit timeout", instance="consumers finish bounded")
-    cons = C.local_defs(w, "consumers")
-    ok = len(cons) == 1 and isinstance(cons[0], ast.Await) and "run_one_queue" in unparse(cons[0])
+    ok = len(cons_names) == 1
     ctx.check(ok, rule, w, "consumers = the consumers returned by run_one_queue", "all started consumers are finished", "the consumers that are finished are not the ones run_one_queue returned", instance="consumers list")
     r1 = ctx.func(f"{C.RUNNER}.run_one_queue")
     rets = [n for n in ast.walk(r1.node) if isinstance(n, ast.Return)]
